@@ -190,3 +190,69 @@ def inline_helpers(P, caller_name, pred, depth=3, replace=True):
     P._callers = None
     P._addr_taken = None
     return done
+
+
+def normalise(P, max_sites=1, max_size=400, depth=4):
+    """canonical form for helper-extraction / helper-inlining refactorings: every static, non-recursive, not address-taken function of at
+    most max_size instructions that is called from at most max_sites places is inlined into its callers (bottom-up, bounded depth) and,
+    once no call to it is left, dropped from the program.  Returns {caller: [inlined helpers]}."""
+    done = {}
+    for _ in range(depth):
+        sites = {}
+        for f in P.repo_functions():
+            for c in f.calls():
+                if c.callee in P.functions:
+                    sites.setdefault(c.callee, []).append((f, c))
+        at = P.addr_taken()
+
+        def reaches_self(g):
+            seen = set()
+            work = [g.name]
+            while work:
+                n = work.pop()
+                h = P.functions.get(n)
+                if h is None or not h.blocks:
+                    continue
+                for c in h.calls():
+                    if c.callee == g.name:
+                        return True
+                    if c.callee in P.functions and c.callee not in seen:
+                        seen.add(c.callee)
+                        work.append(c.callee)
+            return False
+        cand = set()
+        for name, ss in sites.items():
+            g = P.functions[name]
+            if not g.blocks or not g.internal or name in at or g.d.get("vararg"):
+                continue
+            if len(ss) > max_sites or sum(len(b.insts) for b in g.blocks) > max_size:
+                continue
+            if any(cf.relfile != g.relfile for cf, ci in ss):
+                continue
+            if reaches_self(g):
+                continue
+            cand.add(name)
+        if not cand:
+            break
+        # leaves first: inline helpers that do not themselves call a candidate
+        leaf = {n for n in cand if not any(c.callee in cand for c in P.functions[n].calls())}
+        use = leaf or cand
+        progressed = False
+        for caller in sorted({cf.name for n in use for cf, ci in sites[n]}):
+            got = inline_helpers(P, caller, lambda g, use=use: g.name in use, depth=1)
+            if got:
+                done.setdefault(caller, []).extend(got)
+                progressed = True
+        # drop helpers without remaining call sites
+        still = set()
+        for f in P.repo_functions():
+            for c in f.calls():
+                still.add(c.callee)
+        for n in use:
+            if n not in still and n in P.functions:
+                del P.functions[n]
+        P._callers = None
+        P._addr_taken = None
+        if not progressed:
+            break
+    return done
